@@ -118,4 +118,14 @@ example : (step t0 (.setCell 1 0 5 3)).map absT =
 example : (step t0 (.deleteCell 0 1)).map (fun t => t.rows.runs) =
     some [([(1, 3)], 1), ([(1, 2)], 1), ([(2, 1), (0, 1)], 1)] := by decide +kernel
 
+/-- **set_column_values / set_column_cells(x, cells)** (outside the history alphabet because it is
+    defined only for a list as long as the table is high): it denotes "cell x of row y := cells[y]"
+    for every row, and raises for any other length -/
+theorem set_column_values_refines (t : Tbl) (h : Inv t) (x : Int) (cells : List Nat) (hl : cells.length = height t) :
+    ∃ t', setColumnValues t x cells = some t' ∧ Inv t' ∧ absT t' = Grid.setColumnValues (absT t) x cells :=
+  setColumnValues_ok t h x cells hl
+
+theorem set_column_values_wrong_length (t : Tbl) (x : Int) (cells : List Nat) (hl : cells.length ≠ height t) :
+    setColumnValues t x cells = none := setColumnValues_wrong_length t x cells hl
+
 end Odf.C01
